@@ -71,7 +71,8 @@ def worker_init():
 
 # ---------------------------------------------------------------- case generation
 
-FAULT_KINDS = ('analyser_raises', 'unknown_method', 'bad_args', 'unserialisable', 'before_configure', 'eval_raises')
+FAULT_KINDS = ('analyser_raises', 'unknown_method', 'bad_args', 'unserialisable', 'before_configure', 'eval_raises',
+               'bad_configure')
 
 
 def gen_fault(r, kind, uid):
@@ -106,8 +107,40 @@ def gen_fault(r, kind, uid):
     raise ValueError(kind)
 
 
+def gen_configure(r, enabled, prev=None):
+    """A configure call: project root variant, dyn_modules, sometimes malformed, sometimes an exact repeat."""
+    if prev is not None and r.random() < 0.3:
+        return dict(prev)
+    c = {'op': 'configure', 'variant': r.choice('ab'), 'dyn': r.choice((None, None, ['json'], ['textwrap', 'json'], []))}
+    if 'bad_configure' in enabled and r.random() < 0.35:
+        c['bad'] = r.choice(('nosources', 'dyn_int'))
+        c['fault'] = 'bad_configure'
+    return c
+
+
+def config_of(call, root):
+    if call.get('bad') == 'nosources':
+        return {}
+    cfg = {'sources': [root]}
+    if call.get('bad') == 'dyn_int':
+        cfg['dyn_modules'] = 5
+    elif call.get('dyn') is not None:
+        cfg['dyn_modules'] = list(call['dyn'])
+    return cfg
+
+
+STDLIB_REQS = [
+    ('assist', 'import json\njson.', [2, 5]), ('assist', 'import textwrap\ntextwrap.', [2, 9]),
+    ('assist', 'from json import dumps\ndumps.', [2, 6]), ('location', 'import json\nzr = json.loads\n', [2, 13]),
+    ('assist', 'import textwrap\nzw = textwrap.TextWrapper()\nzw.', [3, 3]),
+]
+
+
 def gen_call(r, spec, uid):
     x = r.random()
+    if x > 0.9:
+        kind, src, pos = r.choice(STDLIB_REQS)
+        return {'op': kind, 'source': '%s = 1\n' % uid + src + '\n', 'position': [pos[0] + 1, pos[1]], 'file': 'zqmain.py'}
     if x < 0.2:
         v = r.randrange(8)
         if v == 0:
@@ -155,6 +188,7 @@ def gen_case(seed, i, mode='main'):
     enabled = [k for k in FAULT_KINDS if r.random() < 0.5]
     calls = []
     configured = False
+    last_conf = None
     for j in range(n):
         uid = 'u%d_%d' % (i % 1000, j)
         if not configured:
@@ -164,16 +198,18 @@ def gen_case(seed, i, mode='main'):
                     c['fault'] = 'before_configure'
                 calls.append(c)
                 continue
-            calls.append({'op': 'configure', 'variant': r.choice('ab')})
-            configured = True
+            calls.append(gen_configure(r, enabled, None))
+            configured = not calls[-1].get('bad')
+            last_conf = calls[-1]
             continue
         if enabled and r.random() < fault_rate:
-            kinds = [k for k in enabled if k != 'before_configure']
+            kinds = [k for k in enabled if k not in ('before_configure', 'bad_configure')]
             if kinds:
                 calls.append(gen_fault(r, r.choice(kinds), uid))
                 continue
-        if r.random() < 0.06:
-            calls.append({'op': 'configure', 'variant': r.choice('ab')})
+        if r.random() < 0.08:
+            calls.append(gen_configure(r, enabled, last_conf))
+            last_conf = calls[-1]
             continue
         calls.append(gen_call(r, spec, uid))
     think_on = r.random() < 0.6
@@ -200,7 +236,17 @@ def gen_exhaustive_case(seed, i):
     a, b = slots[(i % 64) % len(slots)]
     calls = list(base)
     for pos in sorted(set([a, b]), reverse=True):
-        calls.insert(pos, gen_fault(r2, r2.choice([k for k in FAULT_KINDS if k != 'before_configure']), 'f%d_%d' % (i % 1000, pos)))
+        kinds = [k for k in FAULT_KINDS if k != 'before_configure']
+        k = r2.choice(kinds)
+        if k == 'bad_configure':
+            f = gen_configure(r2, ['bad_configure'], None)
+            f['bad'] = f.get('bad') or 'nosources'
+            f['fault'] = 'bad_configure'
+            calls.insert(pos, f)
+            if r2.random() < 0.5:
+                calls.insert(pos + 1, dict(f))
+        else:
+            calls.insert(pos, gen_fault(r2, k, 'f%d_%d' % (i % 1000, pos)))
     return {'spec': spec, 'calls': calls, 'thinks': [0] * len(calls), 'launch_delay': 0.0,
             'sched': {'kind': 'default'}}
 
@@ -292,7 +338,8 @@ class Session(object):
         op = call['op']
         try:
             if op == 'configure':
-                self.ref_project = Project([self.src_root(call)])
+                cfg = config_of(call, self.src_root(call))
+                self.ref_project = Project(cfg['sources'], dyn_modules=cfg.get('dyn_modules'))
                 return 'ok', None
             if op == 'eval':
                 if call.get('calc'):
@@ -322,8 +369,9 @@ class Session(object):
     def remote_call(self, env, call):
         op = call['op']
         if op == 'configure':
-            self.cur = call.get('variant', 'a')
-            return env.configure({'sources': [self.src_root(call)]})
+            res = env.configure(config_of(call, self.src_root(call)))
+            self.cur = call.get('variant', 'a')      # only a configure that succeeded moves the session to the new root
+            return res
         if op == 'eval':
             return env.eval(call['body'])
         if op == 'raw':
@@ -423,7 +471,7 @@ class Session(object):
                         self.vio('C15/failure-report/%s/message' % tag,
                                  'call %d: client message %r != message of the exception the server logged %r' % (
                                      idx, msg, str(logged[-1])))
-                    elif exp[1] is not None and str(exp[1]) != msg and fault in ('analyser_raises', None):
+                    elif exp[1] is not None and str(exp[1]) != msg and fault in ('analyser_raises', 'bad_configure', None):
                         self.vio('C15/failure-report/%s/reference-message' % tag,
                                  'call %d: client message %r != in-process exception message %r' % (idx, msg, str(exp[1])))
                 prev_failed = True
